@@ -206,19 +206,28 @@ func (c *Ctx) ruleFieldOrderTotal() {
 			if mc, ok := call.Call.Args[len(call.Call.Args)-1].(*ssa.MakeClosure); ok {
 				if cf, ok := mc.Fn.(*ssa.Function); ok {
 					cnt := 0
+					// the comparator and the package helpers it delegates to
+					fns := []*ssa.Function{cf}
 					eachInstr(cf, func(_ *ssa.BasicBlock, _ int, in2 ssa.Instruction) {
-						bo, ok := in2.(*ssa.BinOp)
-						if !ok || (bo.Op != token.LSS && bo.Op != token.GTR && bo.Op != token.LEQ && bo.Op != token.GEQ) {
-							return
-						}
-						isFI := func(v ssa.Value) bool {
-							_, fv, ok := fieldLoad(v)
-							return ok && fv != nil && fv.Name() == "fieldIndex"
-						}
-						if isFI(bo.X) && isFI(bo.Y) {
-							cnt++
+						if cl, ok := in2.(*ssa.Call); ok && cl.Call.StaticCallee() != nil && cl.Call.StaticCallee().Pkg == f.Pkg && len(cl.Call.StaticCallee().Blocks) > 0 {
+							fns = append(fns, cl.Call.StaticCallee())
 						}
 					})
+					for _, cf := range fns {
+						eachInstr(cf, func(_ *ssa.BasicBlock, _ int, in2 ssa.Instruction) {
+							bo, ok := in2.(*ssa.BinOp)
+							if !ok || (bo.Op != token.LSS && bo.Op != token.GTR && bo.Op != token.LEQ && bo.Op != token.GEQ) {
+								return
+							}
+							isFI := func(v ssa.Value) bool {
+								_, fv, ok := fieldLoad(v)
+								return ok && fv != nil && fv.Name() == "fieldIndex"
+							}
+							if isFI(bo.X) && isFI(bo.Y) {
+								cnt++
+							}
+						})
+					}
 					tie = cnt > 0
 				}
 			}
